@@ -26,6 +26,7 @@ LEVELS = {
     "C19": "model_checking",
     "C07": "model_checking",
     "C09": "model_checking",
+    "C04": "model_checking",
 }
 
 # property -> vlib module with run_property(prop, tier, report)
@@ -42,6 +43,7 @@ RUNNERS = {
     "C19": "cli",
     "C07": "types",
     "C09": "agg",
+    "C04": "wac",
 }
 
 
